@@ -96,20 +96,20 @@ def scenarios(tier: str) -> List[ConcScenario]:
     # tree-bin lock protocol: one restructuring writer against one / two readers of the same bin
     S.append(ConcScenario('tree/insert-vs-get', hasher='samebin', capacity=40, prefill=tree, threads=[[('insert', 10)], [('get', 3)]], preemptions=p, inv='treelock'))
     S.append(ConcScenario('tree/remove-vs-get', hasher='samebin', capacity=40, prefill=tree, threads=[[('remove', 4)], [('get', 7)]], preemptions=p))
-    S.append(ConcScenario('tree/insert-vs-get-get', hasher='const', capacity=40, prefill=tree, threads=[[('insert', 11)], [('get', 2)], [('get', 8)]], preemptions=2, yield_loads=th, inv='treelock'))
+    S.append(ConcScenario('tree/insert-vs-get-get', hasher='const', capacity=40, prefill=tree, threads=[[('insert', 11)], [('get', 2)], [('get', 8)]], preemptions=2, yield_loads=False, inv='treelock'))
     # writer preference: a reader that arrives after the writer announced itself must not take the read lock (else a stream of
     # overlapping readers starves the writer under a fair scheduler); one preemption at every access, loads included
     S.append(ConcScenario('tree/remove-vs-get-get/writer-preference', hasher='const', capacity=40, prefill=tree, threads=[[('get', 2)], [('remove', 4)], [('get', 8)]], preemptions=1, yield_loads=True, inv='treelock'))
     S.append(ConcScenario('tree/remove-vs-insert', hasher='samebin', capacity=40, prefill=tree, threads=[[('remove', 5)], [('insert', 12)]], preemptions=2, yield_loads=th))
     # table initialisation race and its losers
     S.append(ConcScenario('init/insert-vs-insert', hasher='identity', capacity=None, prefill=[], threads=[[('insert', 1)], [('insert', 2)]], preemptions=p))
-    S.append(ConcScenario('init/insert-vs-get-vs-remove', hasher='identity', capacity=None, prefill=[], threads=[[('insert', 1)], [('get', 1)], [('remove', 1)]], preemptions=2, yield_loads=th))
+    S.append(ConcScenario('init/insert-vs-get-vs-remove', hasher='identity', capacity=None, prefill=[], threads=[[('insert', 1)], [('get', 1)], [('remove', 1)]], preemptions=2, yield_loads=False))
     # operations racing with a resize of a small table (helpers, forwarding, clear restarting in the new table)
     S.append(ConcScenario('resize/insert-vs-insert', hasher='identity', capacity=1, prefill=[0], threads=[[('insert', 1)], [('insert', 2)]], preemptions=p))
     S.append(ConcScenario('resize/compute-vs-insert', hasher='identity', capacity=1, prefill=[0], threads=[[('compute_inc', 0)], [('insert', 1)]], preemptions=p))
     S.append(ConcScenario('resize/remove-vs-insert', hasher='identity', capacity=1, prefill=[0], threads=[[('remove', 0)], [('insert', 1)]], preemptions=p))
     S.append(ConcScenario('resize/insert-vs-clear', hasher='identity', capacity=1, prefill=[0], threads=[[('insert', 1), ('insert', 2)], [('clear',)]], preemptions=p))
-    S.append(ConcScenario('resize/insert-vs-remove-vs-get', hasher='identity', capacity=1, prefill=[0, 1], threads=[[('insert', 2)], [('remove', 0)], [('get', 1)]], preemptions=2, yield_loads=th))
+    S.append(ConcScenario('resize/insert-vs-remove-vs-get', hasher='identity', capacity=1, prefill=[0, 1], threads=[[('insert', 2)], [('remove', 0)], [('get', 1)]], preemptions=2, yield_loads=False))
     if th:
         S.append(ConcScenario('tree/compute-none-vs-insert', hasher='samebin', capacity=40, prefill=tree[:8], threads=[[('compute_none', 1), ('compute_none', 2)], [('insert', 13)]], preemptions=2))
         S.append(ConcScenario('resize32/insert-x3', hasher='identity', capacity=20, prefill=list(range(23)), threads=[[('insert', 23)], [('insert', 24)], [('insert', 25)]], preemptions=1, ncpu=2, yield_loads=False))
